@@ -288,7 +288,14 @@ func (w *gworld) deliver(p *packet) {
 			t.kv.NotifyMsg(m)
 		}
 	case "pushpull":
-		t.kv.MergeRemoteState(p.payload, false)
+		func() {
+			defer func() {
+				if r := recover(); r != nil {
+					w.s.Fail("panic", "", "MergeRemoteState panicked on a full-state payload of %d bytes: %v", len(p.payload), r)
+				}
+			}()
+			t.kv.MergeRemoteState(p.payload, false)
+		}()
 	}
 	w.s.Wait()
 }
